@@ -70,7 +70,7 @@ def markdown(
     if renderer == "ast":
         # explicit and more similar to 2.x's API
         renderer = None
-    key = (escape, renderer, plugins)
+    key = (escape, renderer, tuple(plugins) if plugins is not None else None)
     if key in __cached_parsers:
         return __cached_parsers[key](text)
 
